@@ -53,7 +53,8 @@ Definition frag_okb (OG : ogrammar) (extras : bool) (uranges : name -> option (l
           PROVED through the six passes, so checked on OG.
    6. WHITESPACE / COMMENT fail with an unmodified stack (`fclean`): restore_on_err does not wrap the implicit-skip loops;
       a WHITESPACE = _{ POP } would leave the stack popped where Spec restores it (potential finding, not in the suite).
-   The restorer's job (`rok`) is NOT in the class: it is C05_restorer_fixed (flags fixpop = fixmap = true, the repaired code). *)
+   (That no rule of OG is named like a hard-coded VM name - `go_names`, needed since pest_vm lets rules shadow them - follows
+   from conjunct 2.)  The restorer's job (`rok`) is NOT in the class: it is C05_restorer_fixed (flags fixpop = fixmap = true, the repaired code). *)
 Definition in_class (ovf extras : bool) (uranges : name -> option (list (N * N))) (G : grammar) : bool :=
   negb (lister_class false extras G) && negb (lister_class true extras G) &&
   names_okb G && literals_validb G &&
@@ -108,6 +109,10 @@ Proof.
   rewrite forallb_forall in Hfr. rewrite He. split; [|split; [|exact Hn]].
   - split.
     + rewrite <- (rule_names_embed OG), He, Hn. exact VU.
+    + intros r Hr. assert (Hin : In (oname r) (map rname G)).
+      { rewrite <- Hn, <- He, (rule_names_embed OG). now apply in_map. }
+      apply in_map_iff in Hin. destruct Hin as (r0 & E0 & H0). pose proof (VN r0 H0) as Hb. rewrite E0 in Hb.
+      destruct (is_builtin (oname r)) eqn:B; [apply is_builtin_builtin_name in B; congruence|reflexivity].
     + exact Hfr.
     + intros r Hr. apply alts_rokP. intros c Hc. rewrite HR in Hr |- *. exact (Hro r Hr c Hc).
     + intros r Hr. apply lits_valid_of_estrs.
